@@ -147,11 +147,17 @@ def observe (d : D) (status : String) : D × String :=
   let o := s!"{status} iss={joinC d.iss.reverse} cb={joinC cbs} sent={joinC sent} pend={joinC pend} pan={joinC (d.pans.reverse.map toString)}"
   ({ d with s := { d.s with log := [] }, iss := [], pans := [] }, o)
 
-def payloadOf (kind : String) (w : Nat) : Option Payload :=
+/-- is the `code=<int32>` of an error reply non-zero (absent: the default 999)? only that matters -/
+def codeNonzero (ws : List String) : Bool :=
+  match kv ws "code" with
+  | none => true
+  | some c => c != "0" && c != "-0" && c != ""
+
+def payloadOf (kind : String) (w : Nat) (nz : Bool := true) : Option Payload :=
   match kind with
   | "ok" => some (.ok (some w))
   | "nil" => some (.ok none)
-  | "err" => some (.err w)
+  | "err" => if nz then some (.err w) else some (.ok none)   -- `ErrCode == 0` is not an error reply
   | "bad" => some .bad
   | _ => none
 
@@ -189,7 +195,7 @@ def stepModel (d : D) (line : String) : D × String :=
       -- node-level `app.Request` without a routable target: nothing reaches the service core
       (d, (o.replace "iss= " s!"iss=x:X@{now} ").replace "cb= " s!"cb={cb} ")
     | "deliver" =>
-      match kvNat ws "k", payloadOf ((kv ws "kind").getD "") ((kvNat ws "w").getD 0) with
+      match kvNat ws "k", payloadOf ((kv ws "kind").getD "") ((kvNat ws "w").getD 0) (codeNonzero ws) with
       | some k, some p =>
         match lookupD k d.sentId with
         | none => observe d "nopeer"
@@ -197,7 +203,7 @@ def stepModel (d : D) (line : String) : D × String :=
         | some id => observe (settle { d with s := response d.s id p }) "ok"
       | _, _ => (d, "bad-op")
     | "inject" =>
-      match kvNat ws "id", payloadOf ((kv ws "kind").getD "") ((kvNat ws "w").getD 0) with
+      match kvNat ws "id", payloadOf ((kv ws "kind").getD "") ((kvNat ws "w").getD 0) (codeNonzero ws) with
       | some id, some p => observe (settle { d with s := response d.s id p }) "ok"
       | _, _ => (d, "bad-op")
     | "adv" =>
@@ -255,11 +261,11 @@ def getInst (l : List Inst) (tag : Nat) : Option Inst := l.find? (·.tag == tag)
 def viol (sig why op : String) : String := s!"VIOLATION C01/{sig} {why} :: {op}"
 
 /-- expected class of the completion produced by a response of `kind`/`w` -/
-def wantClass (kind : String) (w : Nat) : String :=
+def wantClass (kind : String) (w : Nat) (nz : Bool) : String :=
   match kind with
   | "ok" => s!"ok:{w}"
   | "nil" => "ok:nil"
-  | "err" => s!"rerr:{w}"
+  | "err" => if nz then s!"rerr:{w}" else "ok:nil"   -- any ErrCode ≠ 0, negative ones included, is a remote error
   | _ => "err"
 
 def firstSome {α : Type} (l : List (Option α)) : Option α := l.findSome? id
@@ -301,7 +307,7 @@ def specStep (st : SS) (line : String) : SS × String :=
         | none => none)
       -- 2. the response this op delivers: (target id, expected class)
       let target : Option (Nat × String) :=
-        let cls := wantClass ((kv ws "kind").getD "") ((kvNat ws "w").getD 0)
+        let cls := wantClass ((kv ws "kind").getD "") ((kvNat ws "w").getD 0) (codeNonzero ws)
         if opk == "deliver" then
           match (kvNat ws "k").bind (getInst st.insts) with
           | some i => match i.id with
@@ -388,8 +394,9 @@ def specStep (st : SS) (line : String) : SS × String :=
       let lostViol : Option String := firstSome (insts.map fun i =>
         match i.id with
         | some id =>
-          if i.kind == 'R' && !i.cbSeen && !i.answered && id != 0 && now ≤ i.t0 + reqTimeout && !pend.contains id then
-            some (viol "never-completed" s!"request {i.tag} (id {id}) vanished from the table without completion" op)
+          -- at quiescence a request with a callback is either still registered or has been completed
+          if i.kind == 'R' && !i.cbSeen && !i.answered && id != 0 && !pend.contains id then
+            some (viol "never-completed" s!"request {i.tag} (id {id}) vanished from the table without ever being completed" op)
           else none
         | none => none)
       let ntfViol : Option String :=
